@@ -77,6 +77,35 @@ func c12ValidReq(t *rapid.T, i int) []byte {
 	}
 }
 
+// c12Sizes are lengths around the buffer and limit sizes found in network code.
+var c12Sizes = []int{255, 256, 257, 1023, 1024, 1025, 4095, 4096, 4097, 5000, 8191, 8192, 8193, 16385, 40000, 65535, 65536, 65537, 70000}
+
+// c12BigOffence draws an offence that is large, or has a large amount of pipelined data behind it.
+func c12BigOffence(t *rapid.T, max int) []byte {
+	n := rapid.SampledFrom(c12Sizes).Draw(t, "bigsize") + rapid.IntRange(-2, 2).Draw(t, "bigadj")
+	if n > max {
+		n = max - rapid.IntRange(0, 900).Draw(t, "bigcap") // tiny read buffers make long inputs quadratic
+	}
+	fill := bytes.Repeat([]byte{rapid.SampledFrom([]byte("ax0 $*\x00\xff")).Draw(t, "bigfill")}, n)
+	switch rapid.IntRange(0, 4).Draw(t, "bigkind") {
+	case 0: // one long line that is no RESP
+		return append(append([]byte("!"), fill...), '\r', '\n')
+	case 1: // a bulk of that length with a bad terminator
+		out := []byte(fmt.Sprintf("*2\r\n$3\r\nGET\r\n$%d\r\n", n))
+		out = append(out, fill...)
+		return append(out, rapid.SampledFrom([]string{"XY", "\n\r", "\r\r", "\nX"}).Draw(t, "badterm")...)
+	case 2: // a short offence with that much valid data pipelined behind it
+		out := []byte(rapid.SampledFrom(c12Hostile).Draw(t, "bighostile"))
+		return append(out, refmodel.EncodeCmd([]byte("set"), []byte(refmodel.KeyInSlot(100, "bigtail")), fill)...)
+	case 3: // a long unterminated line (an inline command that never ends)
+		return fill
+	default: // a wrong byte where the next argument header belongs, after a big valid argument
+		out := []byte(fmt.Sprintf("*3\r\n$3\r\nSET\r\n$%d\r\n", n))
+		out = append(out, fill...)
+		return append(out, "\r\n?1\r\nv\r\n"...)
+	}
+}
+
 func c12Gen(t *rapid.T) c12Case {
 	var c c12Case
 	c.Cfg = rapid.SampledFrom(shardPick([]sut.Config{{}, {BufCap: 7}, {MaxLen: 300}, {BufCap: 1}, {ServerConns: 2}, {BufCap: 64}}, 2)).Draw(t, "cfg")
@@ -85,7 +114,13 @@ func c12Gen(t *rapid.T) c12Case {
 	for i := 0; i < nvalid; i++ {
 		stream = append(stream, c12ValidReq(t, i)...)
 	}
-	switch rapid.IntRange(0, 6).Draw(t, "offence") {
+	switch rapid.IntRange(0, 7).Draw(t, "offence") {
+	case 7:
+		max := 70002
+		if c.Cfg.BufCap > 0 && c.Cfg.BufCap < 64 {
+			max = 5000
+		}
+		stream = append(stream, c12BigOffence(t, max)...)
 	case 6:
 		stream = append(stream, c12NumberSwap(t, c12ValidReq(t, 98))...)
 	case 0, 1:
